@@ -249,13 +249,13 @@ GROUPS = {
     'axisymmetric': ('single', [('neohookean/adagio', AX, None, 1), ('linear-elastic/linear', AX, None, 2), ('neohookean/coupled', AX, 0, 2)], 2),
     'j2': ('single', [('j2/small/linear', PS, None, 1), ('j2/large/voce', PS, None, 1)], 3),
     'visco': ('single', [('visco1', PS, None, 1)], 2),
-    'multi-block': ('multi', [('neohookean/adagio', PS, None, 1), ('neohookean/adagio', PS, None, 2)], 3),
+    'multi-block': ('multi', [('neohookean/adagio', PS, None, 1), ('neohookean/adagio', PS, 0, 2)], 3),
     'dynamics': ('dynamics', [('neohookean/adagio', PS, None, 1), ('linear-elastic/linear', PS, None, 2), ('neohookean/coupled', AX, None, 1), ('neohookean/adagio', PS, 0, 2)], 2),
 }
 THOROUGH_EXTRA = {
     'j2': [('j2/large/linear', PS, None, 2), ('j2/seth/power law', PS, None, 1)],
     'visco': [('visco1', AX, None, 1), ('visco3', PS, None, 1)],
-    'multi-block': [('j2/small/linear', PS, None, 1), ('neohookean/adagio', PS, 0, 2)],
+    'multi-block': [('j2/small/linear', PS, None, 1), ('neohookean/adagio', PS, None, 2)],
     'ps-elastic': [('neohookean/adagio', PS, None, 3), ('linear-elastic/green lagrange', PS, None, 2)],
 }
 import os as _os
